@@ -46,6 +46,13 @@ for _pid, _txt in (('C08', 'simplify vs reference evaluation on corpus x valuati
                    ('C14', 'rewriting functions total with documented result kinds over every built-in function x argument shape; three crashes repaired by fix: commits')):
     CLAIMED[_pid] = dict(category='exploration', technique='bounded stand-in only at this commit: native contract/oracle evaluation of the real functions on a generated corpus (contracts for these functions not yet discharged deductively)',
         text='BOUNDED, nothing proved: ' + _txt, note='reference semantics bounded.evaluator (A-SEM); corpus and valuation grid sizes in the evidence', ref='DESIGN.md section 6')
+for _pid, _txt in (('C01', 'parsed AST == expected AST built through the API for three parenthesisations and random layout; roles, disjunction order, ms conversion; open finding F7 (keyword-prefixed names)'),
+                   ('C06', 'parse(str(ast)) == ast with equal hash, idempotent printing, injective printing; three printing defects repaired by fix: commits; open finding F6 (NAN)'),
+                   ('C07', 'only documented exceptions from five entry points on token soups, unicode, mutated valid texts, nesting to 40; call-order independence on one parser object'),
+                   ('C18', 'file == its sequence of annotated properties; invalid member rejects the file with the same error class; empty / duplicate / unknown annotation'),
+                   ('C19', 'hpl.cli.main in process: exit status, strictly valid JSON (null for inf/nan), field-for-field mirror of the AST')):
+    CLAIMED[_pid] = dict(category='exploration', technique='bounded stand-in: the deciding part lies in third-party code (Lark; attrs.asdict/json/argparse) that contracts on /repo cannot decide; native oracle comparison on generated inputs',
+        text='BOUNDED, nothing proved at this commit: ' + _txt, note='A-LARK / A-3P; sizes in the evidence', ref='DESIGN.md sections 6 and 7')
 NOT_YET = {}
 
 
